@@ -33,6 +33,7 @@ def main(tier):
     chk.run("R-VALIDATORS", P.validators, r, floor=40)
     chk.run("R-NAMEDKINDS", P.namedkinds, r, s, cx.sites, floor=10)
     chk.run("R-INCIDENTAL-PURE", T.incidental_pure, r, s, cx.sites, floor=8)
+    chk.run("R-RUNMAX", FL.runmax, r, modules=("attribute_checker.py", "constraints.py"), floor=1)
     chk.run("R-DEADFLAG", FL.deadflag, r, modules=("constraints.py", "attribute_checker.py", "attribute_util.py"), floor=1)
     chk.run("R-SKIPLOSS", T.skiploss, r, s, cx.sites, modules=("constraints.py", "attribute_checker.py"), floor=2)
     chk.run("R-BOUNDARY", RG.boundary, r, floor=130)
